@@ -212,3 +212,30 @@ Proof. vm_compute. reflexivity. Qed.
 Example ex_assets :
   units_total (Assets, 0) (1, None) (prepare_c ex_opts (Some 25) (Some (CloseOn 45)) true ex_ledger) = 690.
 Proof. vm_compute. reflexivity. Qed.
+
+(* ---- tie by translation: the SOURCE of query_env.BeanTable.prepare, translated into PyMini on every run
+   (Gen/SrcLedgerPrepare.v), computes [prepare] - for every clause combination and every entries value, whatever the
+   three operations are.  [summarize_ok]: summarize.open_opt / close_opt / clear_opt called with
+   (entries, date, options) return (operation applied to the entries, some index).  The table attributes are
+   open = a date or None, close = a date, True or None, clear = True or None. ---- *)
+From Coq Require Import String.
+From Verif Require Import Base.PyValue Model.PyMini Model.PrimsLedger Gen.SrcLedgerPrepare Proofs.SrcLedgerPrepare.
+
+Theorem C13_source_prepare : forall (call_ref : nat -> list pv -> pv) (ext : string -> list pv -> PyMini.res pv)
+    (E : Type) (f_open : Z -> E -> E) (f_close : option Z -> E -> E) (f_clear : E -> E) (enc : E -> pv) (opts : pv),
+  summarize_ok ext E f_open f_close f_clear enc opts ->
+  forall (o : option Z) (c : option close_spec) (clr : bool) (e : E),
+  call_method call_ref (prims_ledger SrcLedgerPrepare.refs ext) src_prepare (table_fields E enc opts e o c clr) [] =
+  Ok (table_fields E enc opts e o c clr, enc (prepare E f_open f_close f_clear o c clr e)).
+Proof. exact prepare_src. Qed.
+Print Assumptions C13_source_prepare.
+
+(* the hypothesis is satisfiable, and the translated method run on a table with all three clauses *)
+Example C13_source_prepare_example :
+  call_method (fun _ _ => PNone) (prims_ledger SrcLedgerPrepare.refs demo_ext) src_prepare
+    [("entries", PInt 7); ("options", PInt 0); ("open", PV (VDate 10)); ("close", PBool true); ("clear", PBool true)]%string []
+  = Ok ([("entries", PInt 7); ("options", PInt 0); ("open", PV (VDate 10)); ("close", PBool true); ("clear", PBool true)]%string,
+        PTuple [PV (VStr (Dates.s2z "beancount.ops.summarize.clear_opt")); PNone;
+          PTuple [PV (VStr (Dates.s2z "beancount.ops.summarize.close_opt")); PNone;
+            PTuple [PV (VStr (Dates.s2z "beancount.ops.summarize.open_opt")); PV (VDate 10); PInt 7]]]).
+Proof. vm_compute. reflexivity. Qed.
